@@ -46,6 +46,7 @@ class RunLog:
         self.interrupt_fired = []  # (task, callback index, name)
         self.broadcast = False
         self.stages = None
+        self.log_metric_arrays = False
 
 
 def _tl(name, default=None):
@@ -137,6 +138,8 @@ class Recording:
                 "scale": getattr(inner, "scale", None),
                 "task": threading.current_thread().name,
             }
+            if run.log_metric_arrays and system is not None:
+                e["metric_array"] = _metric_array(system)
             if self._record_h and system is not None and new_state.mom is not None:
                 with paused():
                     from mici.states import ChainState
@@ -423,6 +426,17 @@ def trace_tag(state):
     return {"tag": state.tag, "pos": state.pos}
 
 
+def trace_placeholder(state):
+    _cb("placeholder", state)
+    # integer placeholders which a later trace function overrides with float quantities
+    return {"val": 0, "vec": np.zeros(np.size(state.pos), dtype=np.int64)}
+
+
+def trace_override(state):
+    _cb("override", state)
+    return {"val": float(np.sum(state.pos**2)) + 0.5, "vec": state.pos * 1.5}
+
+
 def trace_odd_keys(state):
     _cb("odd", state)
     # keys that differ only in characters a file name cannot carry
@@ -438,6 +452,7 @@ TRACE_SETS = {
     "tag": [trace_tag],
     "three": [trace_pos, trace_a, trace_b],
     "odd_keys": [trace_odd_keys],
+    "override_dtype": [trace_placeholder, trace_override],
 }
 
 
@@ -714,6 +729,7 @@ def run_scenario_raw(scn) -> Record:
     rec.scn = scn
     run = RunLog()
     run.interrupt = scn.get("interrupt")
+    run.log_metric_arrays = bool(scn.get("log_metric_arrays"))
     sched = scn.get("sched") or {}
     n_process = scn.get("n_process", 1)
     use_sim = n_process != 1
@@ -962,7 +978,7 @@ def random_scenario(rng, *, profile="mixed", run_seed=None):
         scn["system"] = {"kind": "euclid", "dim": dim, "target": zoo.quartic_from_seed(rng, dim)}
         scn["second_transition"] = rng.random() < 0.5
         scn["init"] = rng.choice(["dict", "state"])
-        scn["trace"] = rng.choice(["none", "empty", "pos", "two_overlap", "scalar", "tag", "three", "odd_keys"])
+        scn["trace"] = rng.choice(["none", "empty", "pos", "two_overlap", "scalar", "tag", "three", "odd_keys", "override_dtype"])
         scn["adapters"] = rng.choice([None, [], ["rwscale"]])
         if rng.random() < 0.3:
             scn["monitor_stats"] = {"rw": ["accepted"]}
@@ -989,11 +1005,18 @@ def random_scenario(rng, *, profile="mixed", run_seed=None):
         if rng.random() < 0.2:
             scn["sampler_kwargs"]["mom_resample_coeff"] = rng.choice([0.3, 0.7, 1.0])
         scn["init"] = rng.choice(["array", "state", "state_mom"])
-        scn["trace"] = rng.choice(["default", "none", "empty", "pos", "two_overlap", "scalar", "three", "odd_keys"] + (["tag"] if scn["init"] != "array" else []))
+        scn["trace"] = rng.choice(["default", "none", "empty", "pos", "two_overlap", "scalar", "three", "odd_keys", "override_dtype"] + (["tag"] if scn["init"] != "array" else []))
         metric_ok = spec["kind"] in ("euclid", "gauss", "con", "gcon")
-        choices = ["default", None, [], ["dual"], [{"type": "dual", "reducer": rng.choice(["arith", "geom", "min"])}]]
+        dual_opts = {"type": "dual", "reducer": rng.choice(["arith", "geom", "min"])}
+        if rng.random() < 0.5:
+            dual_opts["log_step_size_reg_target"] = rng.choice([-1.0, 0.0, 0.7])
+        if rng.random() < 0.3:
+            dual_opts["adapt_stat_target"] = rng.choice([0.6, 0.9])
+        if rng.random() < 0.3:
+            dual_opts["iter_offset"] = rng.choice([0, 3, 25])
+        choices = ["default", None, [], ["dual"], [dual_opts], [dual_opts]]
         if metric_ok:
-            choices += [["dual", "var"], ["dual", "cov"], ["var"], ["cov", "dual"]]
+            choices += [["dual", "var"], ["dual", "cov"], ["var"], ["cov", "dual"], [dual_opts, "var"]]
         scn["adapters"] = rng.choice(choices)
         if rng.random() < 0.3:
             scn["monitor_stats"] = rng.choice([None, ["accept_stat"], ["n_step", "accept_stat"]])
